@@ -8,6 +8,21 @@ CLAIMED = {
    text="Machine-checked theorems (Props/C03.v) over the is_compatible function and bond-order chain that the translator regenerates from bond.py on every run: iff-characterisation by the conjugation rule, symmetry, [] bonds nothing, weights irrelevant, order table; plus a kernel-computed theorem over the property's complete finite universe (840 texts, 705 600 pairs) through the descriptor-parser model. The parser model is tied to the code by an exhaustive differential run over that universe; the rule is also checked on all pairs on the implementation itself.",
    note="Trusted: Coq kernel incl. vm_compute; translator (Python ast subset); extraction + OCaml driver; Python float()/int() literal syntax as modelled. Modelled not verified: BondDescriptor.__init__ (hand model, exhaustively compared on the universe). No axioms (all theorems closed under the global context).",
    tie="translator (is_compatible, bond-order chain) + exhaustive correspondence (descriptor parser)", ref="7/C03", engine="translator+coq-model+correspondence"),
+ "C04": dict(text="Theorems for ALL inputs, pick streams and drawn targets over the generator model: every bond joins a still-open descriptor of an earlier residue with a descriptor of the freshly created residue, the two satisfy the conjugation rule and share the bond order, both are copies of descriptors written on their tokens, the atoms lie in the two residues' ranges, no descriptor instance is used twice, an incompatible pair is an error. Invariant GInv proved by induction over the run monad (all of prefix attachment, growth, transition lists, capping, hand-over go through attach). Tie: trace validation of implementation runs (random mode + all choice sequences of bounded instances). Oracle: perfect matching of inter-residue bonds to compatible unused descriptors on the returned RDKit molecule.",
+   note='Trusted: Coq kernel incl. vm_compute; extraction + OCaml driver; recording/scripting numpy Generator subclass; RDKit fragment data (atom counts, masses) entering the model as oracle data. Modelled not verified: mol_gen.py:26-184, stochastic.py:164-308, token.py:244-255, molecule.py:147-152, core.py:94-122 (Model/Gen.v, Model/Select.v follow them statement by statement; every run is trace-validated: same choice calls with the same candidates and p, same residues, bonds, edges, mass, open descriptors, error vs result). No axioms.',
+   tie='correspondence (trace validation against the extracted model under a recording/scripted generator) + translator (is_compatible)', ref='7/C04', engine='coq-model+correspondence'),
+ "C05": dict(text="Theorems for ALL inputs, pick streams and targets: atoms = concatenation of the residues' atoms in creation order; every residue is a copy of a token of the input; the residue graph has |V|-1 edges, edge k joins residue k+1 to an earlier one, every residue is linked to residue 0 (tree); one bond per residue edge; mass = sum of residue masses. PARTIAL: sanitisation, aromaticity and hydrogen counts are RDKit behaviour, checked by the oracle on every generated molecule, not proved.",
+   note='Trusted: Coq kernel incl. vm_compute; extraction + OCaml driver; recording/scripting numpy Generator subclass; RDKit fragment data (atom counts, masses) entering the model as oracle data. Modelled not verified: mol_gen.py:26-184, stochastic.py:164-308, token.py:244-255, molecule.py:147-152, core.py:94-122 (Model/Gen.v, Model/Select.v follow them statement by statement; every run is trace-validated: same choice calls with the same candidates and p, same residues, bonds, edges, mass, open descriptors, error vs result). No axioms.',
+   tie='correspondence (trace validation + final state) ', ref='7/C05', engine='coq-model+correspondence'),
+ "C06": dict(text='PARTIAL. Proved for ALL inputs, pick streams and targets (safety half): a returned molecule without open descriptor used every descriptor instance of every residue exactly once; residues appear element by element in the written order (token once; object = optional start end group ++ >=1 growth units ++ capping end groups, all copies of its own tokens); finalisation leaves exactly the reserved descriptor (or none) open. NOT yet proved: termination and completion for every molecule accepted by the closability analysis well_posed; the implementation-level oracle checks completion, order, adjacency and leaf end groups on every run of every accepted input, including all choice sequences of bounded instances.',
+   note='Trusted: Coq kernel incl. vm_compute; extraction + OCaml driver; recording/scripting numpy Generator subclass; RDKit fragment data (atom counts, masses) entering the model as oracle data. Modelled not verified: mol_gen.py:26-184, stochastic.py:164-308, token.py:244-255, molecule.py:147-152, core.py:94-122 (Model/Gen.v, Model/Select.v follow them statement by statement; every run is trace-validated: same choice calls with the same candidates and p, same residues, bonds, edges, mass, open descriptors, error vs result). No axioms. harness/wellposed.py decides which inputs the completion oracle applies to.',
+   tie='correspondence (trace validation, all choice sequences of bounded instances)', ref='7/C06', engine='coq-model+correspondence'),
+ "C07": dict(text="Theorems for ALL inputs, pick streams and targets (negative, tiny, huge): per stochastic object at least one unit, every compared value but the last <= target, the last exceeds it unless no descriptor was left open; the compared value is exactly the mass of the residues appended by this object's growth steps (not prefix, earlier elements, start group or capping residues); exactly one target consumed per object. Tie: trace validation with natural and FORCED targets. Oracle: stop rule read off residue masses and draws.",
+   note='Trusted: Coq kernel incl. vm_compute; extraction + OCaml driver; recording/scripting numpy Generator subclass; RDKit fragment data (atom counts, masses) entering the model as oracle data. Modelled not verified: mol_gen.py:26-184, stochastic.py:164-308, token.py:244-255, molecule.py:147-152, core.py:94-122 (Model/Gen.v, Model/Select.v follow them statement by statement; every run is trace-validated: same choice calls with the same candidates and p, same residues, bonds, edges, mass, open descriptors, error vs result). No axioms.',
+   tie='correspondence (trace validation with recorded and forced draws)', ref='7/C07', engine='coq-model+correspondence'),
+ "C08": dict(text="Theorems: the selection law sums to 1 and is non-negative for every non-empty non-negative weight list, is proportional to the weights when they are not all equal, uniform when all equal (all zero included); explicit transition lists give listed weight / total; candidates are exactly the compatible descriptors; in EVERY run of the generator model every recorded decision took an option of positive probability. Tie: every rng.choice call (candidates, p) of every run against the model. Oracle: closed-form leaf probabilities of complete choice trees of a copolymer family; outcome masses sum to 1. PARTIAL: that numpy's choice realises p is an oracle.",
+   note='Trusted: Coq kernel incl. vm_compute; extraction + OCaml driver; recording/scripting numpy Generator subclass; RDKit fragment data (atom counts, masses) entering the model as oracle data. Modelled not verified: mol_gen.py:26-184, stochastic.py:164-308, token.py:244-255, molecule.py:147-152, core.py:94-122 (Model/Gen.v, Model/Select.v follow them statement by statement; every run is trace-validated: same choice calls with the same candidates and p, same residues, bonds, edges, mass, open descriptors, error vs result). No axioms.',
+   tie="correspondence (every rng.choice call against the model's Choice events)", ref='7/C08', engine='coq-model+correspondence'),
 }
 ALL = [f"C{i:02d}" for i in range(1, 21)]
 NA_REASON = {}
